@@ -290,6 +290,24 @@ def generate(outdir, seed, npairs):
                 a = tg.vec(P(en)); b = tg.wrapper(tg.LBuf(P(en), n, P(sz), std_array=rng.random() < 0.5))
                 if (a.cpp, b.cpp) not in seen:
                     seen.add((a.cpp, b.cpp)); pairs.append((a, b, "logical buffer ~ vector", True))
+    # systematic family: tables / structures whose entry is a large array of multi-byte integers ~ the same with a vector
+    # (count and byte length fall in different integer classes: 32..127 x 4 bytes, 16..127 x 8 bytes, 64..255 x 2 bytes)
+    for en, n in [("i32", 32), ("i32", 100), ("u16", 64), ("u16", 200), ("i64", 16), ("u64", 127), ("u32", 127)]:
+        if rng.random() < (0.6 if npairs < 300 else 1.0):
+            hk = ("hash", 4000 + n)
+            a = tg.table([(tg.arr(P(en), n), 1, True), (P("string"), 2, True)], hash_kind=hk); b = tg.table([(tg.vec(P(en)), 1, True), (P("string"), 2, True)], hash_kind=hk)
+            seen.add((a.cpp, b.cpp)); pairs.append((a, b, "entry-wise fungible tables / vector<T> ~ array<T,N>", True))
+            a2 = tg.struct([tg.Member(tg.arr(P(en), n)), tg.Member(P("u8"))]); b2 = tg.struct([tg.Member(tg.vec(P(en))), tg.Member(P("u8"))])
+            seen.add((a2.cpp, b2.cpp)); pairs.append((a2, b2, "member-wise fungible structures / vector<T> ~ array<T,N>", True))
+    # near-miss family: sequence of integral elements vs logical buffer of wrapped integral elements (BIN vs ARY)
+    for en in ["u32", "u8", "i64", "u16"]:
+        if rng.random() < (0.8 if npairs < 300 else 1.0):
+            w = tg.wrapper(P(en))
+            for a in (tg.vec(P(en)), tg.arr(P(en), 8)):
+                b = tg.wrapper(tg.LBuf(w, 8, P(rng.choice(["size_t", "u8", "u32"])), std_array=rng.random() < 0.5))
+                seen.add((a.cpp, b.cpp)); pairs.append((a, b, "sequence<integral> ~ logical buffer of wrapper<integral>", False))
+                b3 = tg.struct([tg.LBuf(w, 8, P("size_t"))]); a3 = tg.struct([tg.Member(a)])
+                seen.add((a3.cpp, b3.cpp)); pairs.append((a3, b3, "nested: sequence<integral> ~ logical buffer of wrapper<integral>", False))
     # a few reflexive rows and documented literal pairs
     types, idx = [], {}
     for (a, b, rule, exp) in pairs:
